@@ -1,8 +1,727 @@
-(* Power_proofs.v — lemmas about the model in Power.v (see props/C10.v for the property theorems). *)
-From Coq Require Import ZArith QArith List Bool String Lia.
+(* Power_proofs.v — lemmas about the model in Power.v (the property theorems are in props/C10.v).
+
+   Structure:
+     1. insertion sort: sortedness, commutation with filter and map
+     2. the three stages as stream functions; Pipeline.stream_compose gives run = composition
+     3. stage 2 groups the helper counters by rank (first-seen order), stage 3 treats the groups independently
+     4. one rank: zero readings are invisible; on a time-sorted list of non-zero, non-Prep samples the state
+        machine of compute_power emits exactly one event per consecutive pair of distinct-time samples
+     5. assembly: power_run = slices ++ per-rank specification
+     6. bounds, time order, energy *)
+From Coq Require Import ZArith QArith List Bool String Lia Sorted Qabs.
 Import ListNotations.
-From AiuModel Require Import Base Pipeline Power.
+From AiuModel Require Import Base Pipeline.
+From AiuModel Require Import Power.
 Local Open Scope Z_scope.
 
-Lemma cutoff_is_double_tenth : (1 # 10 < cutoff)%Q /\ (cutoff < (1 # 10) + (1 # 100000000000000000))%Q.
-Proof. split; reflexivity. Qed.
+(* ================================================================== 1. insertion sort *)
+Section SortFacts.
+  Variable A : Type.
+  Variable leb : A -> A -> bool.
+  Hypothesis leb_total : forall a b, leb a b = false -> leb b a = true.
+  Hypothesis leb_trans : forall a b c, leb a b = true -> leb b c = true -> leb a c = true.
+  Definition le_of (a b : A) : Prop := leb a b = true.
+
+  Lemma insert_HdRel x y l : HdRel le_of y l -> le_of y x -> HdRel le_of y (insert_sorted leb x l).
+  Proof.
+    intros H Hyx. destruct l as [|z r]; cbn.
+    - constructor. exact Hyx.
+    - destruct (leb x z); constructor; [exact Hyx|]. inversion H; assumption.
+  Qed.
+
+  Lemma insert_Sorted x l : Sorted le_of l -> Sorted le_of (insert_sorted leb x l).
+  Proof.
+    induction l as [|y r IH]; intros H; cbn.
+    - repeat constructor.
+    - inversion H as [|? ? Hr Hhd]; subst. destruct (leb x y) eqn:E.
+      + constructor; [exact H|]. constructor. exact E.
+      + constructor; [apply IH; exact Hr|]. apply insert_HdRel; [exact Hhd|]. apply leb_total. exact E.
+  Qed.
+
+  Lemma isort_Sorted l : Sorted le_of (isort leb l).
+  Proof. induction l as [|x r IH]; cbn; [constructor|]. apply insert_Sorted. exact IH. Qed.
+
+  Lemma isort_SSorted l : StronglySorted le_of (isort leb l).
+  Proof.
+    apply Sorted_StronglySorted; [|apply isort_Sorted].
+    intros a b c. unfold le_of. apply leb_trans.
+  Qed.
+
+  Lemma insert_Forall (P : A -> Prop) x l : P x -> Forall P l -> Forall P (insert_sorted leb x l).
+  Proof.
+    intros Hx H. induction H as [|y r Hy Hr IH]; cbn; [repeat constructor; exact Hx|].
+    destruct (leb x y); repeat constructor; assumption.
+  Qed.
+  Lemma isort_Forall (P : A -> Prop) l : Forall P l -> Forall P (isort leb l).
+  Proof. induction 1; cbn; [constructor|]. apply insert_Forall; assumption. Qed.
+
+  Lemma filter_insert f x l : StronglySorted le_of l ->
+    filter f (insert_sorted leb x l) = if f x then insert_sorted leb x (filter f l) else filter f l.
+  Proof.
+    assert (Hc : forall a m, filter f (a :: m) = if f a then a :: filter f m else filter f m) by reflexivity.
+    induction l as [|y r IH]; intros H.
+    - cbn. destruct (f x); reflexivity.
+    - inversion H as [|? ? Hr Hall]; subst. cbn [insert_sorted]. destruct (leb x y) eqn:E.
+      + rewrite (Hc x). destruct (f x) eqn:Fx; [|reflexivity].
+        (* x goes in front of the filtered list as well *)
+        assert (Hhead : forall m, Forall (fun z => leb x z = true) m -> insert_sorted leb x m = x :: m).
+        { intros m Hm. destruct m as [|z m']; [reflexivity|]. cbn. inversion Hm; subst.
+          match goal with h : leb x z = true |- _ => rewrite h end. reflexivity. }
+        rewrite Hhead; [reflexivity|].
+        rewrite Forall_forall in *. intros z Hz. apply filter_In in Hz. destruct Hz as [Hz _].
+        destruct Hz as [->|Hz]; [exact E|]. apply (leb_trans x y z E). apply Hall. exact Hz.
+      + rewrite (Hc y), (IH Hr). destruct (f x) eqn:Fx; destruct (f y) eqn:Fy; rewrite ?Hc, ?Fy; cbn [insert_sorted];
+          try rewrite E; reflexivity.
+  Qed.
+
+  Lemma filter_isort f l : filter f (isort leb l) = isort leb (filter f l).
+  Proof.
+    induction l as [|x r IH]; cbn [isort fold_right filter]; [reflexivity|].
+    change (fold_right (insert_sorted leb) [] r) with (isort leb r).
+    rewrite filter_insert by apply isort_SSorted. rewrite IH.
+    destruct (f x); reflexivity.
+  Qed.
+End SortFacts.
+
+Lemma insert_map {A B} (f : A -> B) lebA lebB :
+  (forall a b, lebA a b = lebB (f a) (f b)) ->
+  forall x l, map f (insert_sorted lebA x l) = insert_sorted lebB (f x) (map f l).
+Proof.
+  intros H x l. induction l as [|y r IH]; cbn; [reflexivity|].
+  rewrite <- H. destruct (lebA x y); cbn; [reflexivity|]. rewrite IH. reflexivity.
+Qed.
+Lemma isort_map {A B} (f : A -> B) lebA lebB :
+  (forall a b, lebA a b = lebB (f a) (f b)) -> forall l, map f (isort lebA l) = isort lebB (map f l).
+Proof.
+  intros H l. induction l as [|x r IH]; cbn; [reflexivity|].
+  change (fold_right (insert_sorted lebA) [] r) with (isort lebA r).
+  rewrite (insert_map f lebA lebB H). rewrite IH. reflexivity.
+Qed.
+
+(* the two orders in use are total preorders *)
+Lemma Qle_bool_total a b : Qle_bool a b = false -> Qle_bool b a = true.
+Proof.
+  intros H. apply Qle_bool_iff. destruct (Qlt_le_dec b a) as [L|L].
+  - apply Qlt_le_weak. exact L.
+  - apply Qle_bool_iff in L. congruence.
+Qed.
+Lemma Qle_bool_trans a b c : Qle_bool a b = true -> Qle_bool b c = true -> Qle_bool a c = true.
+Proof. rewrite !Qle_bool_iff. apply Qle_trans. Qed.
+
+Lemma key_leb_total a b : key_leb a b = false -> key_leb b a = true.
+Proof. apply Qle_bool_total. Qed.
+Lemma key_leb_trans a b c : key_leb a b = true -> key_leb b c = true -> key_leb a c = true.
+Proof. apply Qle_bool_trans. Qed.
+Lemma time_leb_total a b : time_leb a b = false -> time_leb b a = true.
+Proof. apply Qle_bool_total. Qed.
+Lemma time_leb_trans a b c : time_leb a b = true -> time_leb b c = true -> time_leb a c = true.
+Proof. apply Qle_bool_trans. Qed.
+
+(* ================================================================== 2. the stages as stream functions *)
+Fixpoint extract_feed (seen : Z -> bool) (es : list ev) : (Z -> bool) * list ev :=
+  match es with
+  | [] => (seen, [])
+  | e :: r => let '(n, o) := extract_step seen e in let '(n2, o2) := extract_feed n r in (n2, o ++ o2)
+  end.
+Fixpoint sort_feed (qs : queues) (es : list ev) : queues * list ev :=
+  match es with
+  | [] => (qs, [])
+  | e :: r => let '(n, o) := sort_step qs e in let '(n2, o2) := sort_feed n r in (n2, o ++ o2)
+  end.
+Fixpoint power_feed (skip : bool) (st : pstate) (es : list ev) : pstate * list ev :=
+  match es with
+  | [] => (st, [])
+  | e :: r => let '(n, o) := power_step skip st e in let '(n2, o2) := power_feed skip n r in (n2, o ++ o2)
+  end.
+
+Lemma feedc_extract es : forall seen,
+  feedc g_extract (SX seen) es = (SX (fst (extract_feed seen es)), snd (extract_feed seen es)).
+Proof.
+  induction es as [|e r IH]; intros seen; cbn [feedc extract_feed]; [reflexivity|].
+  cbn [cb g_extract extract_cb]. destruct (extract_step seen e) as [n o]. rewrite IH.
+  destruct (extract_feed n r) as [n2 o2]. reflexivity.
+Qed.
+Lemma feedc_sort es : forall qs,
+  feedc g_sort (SS qs) es = (SS (fst (sort_feed qs es)), snd (sort_feed qs es)).
+Proof.
+  induction es as [|e r IH]; intros qs; cbn [feedc sort_feed]; [reflexivity|].
+  cbn [cb g_sort sort_cb]. destruct (sort_step qs e) as [n o]. rewrite IH.
+  destruct (sort_feed n r) as [n2 o2]. reflexivity.
+Qed.
+Lemma feedc_power skip es : forall st,
+  feedc (g_power skip) (SP st) es = (SP (fst (power_feed skip st es)), snd (power_feed skip st es)).
+Proof.
+  induction es as [|e r IH]; intros st; cbn [feedc power_feed]; [reflexivity|].
+  cbn [cb g_power power_cb]. destruct (power_step skip st e) as [n o]. rewrite IH.
+  destruct (power_feed skip n r) as [n2 o2]. reflexivity.
+Qed.
+
+Definition extract_stream (es : list ev) : list ev := snd (extract_feed (fun _ => false) es).
+Definition sort_stream (es : list ev) : list ev :=
+  snd (sort_feed qempty es) ++ snd (sort_drain (fst (sort_feed qempty es))).
+Definition power_stream (skip : bool) (es : list ev) : list ev := snd (power_feed skip (fun _ => None) es).
+
+Lemma power_stages_wf skip : wf BCELL happ hlist hempty (power_stages skip).
+Proof.
+  unfold power_stages.
+  apply wf_priv; [reflexivity|cbn; intros [H|[H|[]]]; discriminate|].
+  apply wf_priv; [reflexivity|cbn; intros [H|[]]; discriminate|].
+  apply wf_priv; [reflexivity|cbn; intros []|]. constructor.
+Qed.
+
+(* Engine.run over the registered stages = composition of the three stream functions *)
+Lemma power_run_compose skip es :
+  power_run skip es = power_stream skip (sort_stream (extract_stream es)).
+Proof.
+  unfold power_run.
+  rewrite (@stream_compose ev pst BCELL happ hlist hempty).
+  - unfold power_stages. cbn [compose bar g_extract g_sort g_power cid st0].
+    unfold streamc. rewrite feedc_extract. cbn [dr g_extract no_dr].
+    rewrite app_nil_r. fold (extract_stream es).
+    rewrite feedc_sort. cbn [dr g_sort sort_dr]. 
+    destruct (sort_drain (fst (sort_feed qempty (extract_stream es)))) as [q2 o2] eqn:Ed.
+    rewrite feedc_power. cbn [dr g_power no_dr]. rewrite app_nil_r.
+    unfold power_stream, sort_stream. rewrite Ed. reflexivity.
+  - intros s e. reflexivity.
+  - reflexivity.
+  - apply power_stages_wf.
+  - cbn. intros [H|[H|[H|[]]]]; discriminate.
+  - reflexivity.
+Qed.
+
+(* ---- helper counters and the rest of a stream *)
+Definition is_cnt (e : ev) : bool := match e with ECnt _ => true | _ => false end.
+Definition cnt_of (l : list ev) : list counter := flat_map (fun e => match e with ECnt c => [c] | _ => [] end) l.
+Definition noncnt (l : list ev) : list ev := filter (fun e => negb (is_cnt e)) l.
+
+Lemma cnt_of_app a b : cnt_of (a ++ b) = cnt_of a ++ cnt_of b.
+Proof. unfold cnt_of. apply flat_map_app. Qed.
+Lemma noncnt_app a b : noncnt (a ++ b) = noncnt a ++ noncnt b.
+Proof. unfold noncnt. apply filter_app. Qed.
+
+(* stage 1 on a stream of slices *)
+Fixpoint cnts (seen : Z -> bool) (ss : list slice) : list counter :=
+  match ss with
+  | [] => []
+  | s :: r => if sampled s then
+                if seen (s_pid s) then sample_counter s :: cnts seen r
+                else zero_counter s :: sample_counter s :: cnts (fun k => (k =? s_pid s) || seen k) r
+              else cnts seen r
+  end.
+Lemma extract_feed_slices ss : forall seen,
+  noncnt (snd (extract_feed seen (map ESlice ss))) = map ESlice ss /\
+  cnt_of (snd (extract_feed seen (map ESlice ss))) = cnts seen ss.
+Proof.
+  induction ss as [|s r IH]; intros seen; cbn [map extract_feed cnts]; [split; reflexivity|].
+  cbn [extract_step]. destruct (sampled s).
+  - destruct (seen (s_pid s)).
+    + specialize (IH seen). destruct (extract_feed seen (map ESlice r)) as [n2 o2]. cbn [snd] in *.
+      destruct IH as [I1 I2]. split; [rewrite noncnt_app, I1|rewrite cnt_of_app, I2]; reflexivity.
+    + specialize (IH (fun k => (k =? s_pid s) || seen k)).
+      destruct (extract_feed (fun k => (k =? s_pid s) || seen k) (map ESlice r)) as [n2 o2]. cbn [snd] in *.
+      destruct IH as [I1 I2]. split; [rewrite noncnt_app, I1|rewrite cnt_of_app, I2]; reflexivity.
+  - specialize (IH seen). destruct (extract_feed seen (map ESlice r)) as [n2 o2]. cbn [snd] in *.
+    destruct IH as [I1 I2]. split; [rewrite noncnt_app, I1|rewrite cnt_of_app, I2]; reflexivity.
+Qed.
+
+(* stage 2: non-counters pass at once, counters are collected *)
+Definition firsts_acc (acc : list Z) (l : list Z) : list Z :=
+  fold_left (fun acc p => if mem p acc then acc else acc ++ [p]) l acc.
+Lemma sort_feed_spec es : forall qs,
+  snd (sort_feed qs es) = noncnt es /\
+  q_held (fst (sort_feed qs es)) = q_held qs ++ cnt_of es /\
+  q_order (fst (sort_feed qs es)) = firsts_acc (q_order qs) (map c_pid (cnt_of es)).
+Proof.
+  induction es as [|e r IH]; intros qs; cbn [sort_feed].
+  - cbn. rewrite app_nil_r. auto.
+  - destruct e as [s|c|p t w|]; cbn [sort_step].
+    + specialize (IH qs). destruct (sort_feed qs r) as [n2 o2]. cbn [fst snd] in *.
+      destruct IH as (I1 & I2 & I3). cbn. rewrite I1. auto.
+    + specialize (IH (qadd c qs)). destruct (sort_feed (qadd c qs) r) as [n2 o2]. cbn [fst snd] in *.
+      destruct IH as (I1 & I2 & I3). cbn. rewrite I1, I2, I3. cbn [qadd q_held q_order].
+      rewrite <- app_assoc. auto.
+    + specialize (IH qs). destruct (sort_feed qs r) as [n2 o2]. cbn [fst snd] in *.
+      destruct IH as (I1 & I2 & I3). cbn. rewrite I1. auto.
+    + specialize (IH qs). destruct (sort_feed qs r) as [n2 o2]. cbn [fst snd] in *.
+      destruct IH as (I1 & I2 & I3). cbn. rewrite I1. auto.
+Qed.
+
+(* the stream that reaches compute_power *)
+Lemma sort_extract_stream ss :
+  sort_stream (extract_stream (map ESlice ss)) =
+  map ESlice ss ++
+  flat_map (fun p => map ECnt (isort key_leb (queue_of p (cnts (fun _ => false) ss))))
+           (firsts_acc [] (map c_pid (cnts (fun _ => false) ss))).
+Proof.
+  unfold sort_stream, extract_stream.
+  destruct (extract_feed_slices ss (fun _ => false)) as [E1 E2].
+  destruct (sort_feed_spec (snd (extract_feed (fun _ => false) (map ESlice ss))) qempty) as (S1 & S2 & S3).
+  rewrite S1, E1. unfold sort_drain. cbn [snd]. rewrite S2, S3, E2. reflexivity.
+Qed.
+
+(* ---- first-seen order of ranks *)
+Lemma mem_app_self p acc : mem p (acc ++ [p]) = true.
+Proof. unfold mem. rewrite existsb_app. cbn. rewrite Z.eqb_refl. apply orb_true_iff. right. reflexivity. Qed.
+Lemma firsts_acc_dup acc p l : firsts_acc acc (p :: p :: l) = firsts_acc acc (p :: l).
+Proof.
+  unfold firsts_acc. cbn [fold_left]. destruct (mem p acc) eqn:E.
+  - rewrite E. reflexivity.
+  - rewrite mem_app_self. reflexivity.
+Qed.
+Lemma firsts_cnts ss : forall seen acc,
+  firsts_acc acc (map c_pid (cnts seen ss)) = firsts_acc acc (map s_pid (filter sampled ss)).
+Proof.
+  induction ss as [|s r IH]; intros seen acc; cbn [cnts filter map]; [reflexivity|].
+  destruct (sampled s); [|apply IH].
+  destruct (seen (s_pid s)); cbn [map zero_counter sample_counter c_pid].
+  - unfold firsts_acc in *. cbn [fold_left]. apply IH.
+  - rewrite firsts_acc_dup. unfold firsts_acc in *. cbn [fold_left]. apply IH.
+Qed.
+
+Lemma NoDup_snoc (acc : list Z) x : NoDup acc -> ~ In x acc -> NoDup (acc ++ [x]).
+Proof.
+  intros Hn H. induction acc as [|a acc IHa]; cbn.
+  - constructor; [intros []|constructor].
+  - inversion Hn; subst. constructor.
+    + rewrite in_app_iff. cbn. intros [Hi|[Hi|[]]]; [tauto|]. subst. apply H. left. reflexivity.
+    + apply IHa; [assumption|]. intro. apply H. right. assumption.
+Qed.
+Lemma mem_false p acc : mem p acc = false -> ~ In p acc.
+Proof.
+  intros E Hin. unfold mem in E. assert (existsb (Z.eqb p) acc = true); [|congruence].
+  apply existsb_exists. exists p. split; [exact Hin|apply Z.eqb_refl].
+Qed.
+Lemma mem_true p acc : mem p acc = true -> In p acc.
+Proof.
+  intros E. unfold mem in E. apply existsb_exists in E. destruct E as (y & Hy & Exy).
+  apply Z.eqb_eq in Exy. subst y. exact Hy.
+Qed.
+Lemma firsts_acc_spec l : forall acc, NoDup acc ->
+  NoDup (firsts_acc acc l) /\ (forall p, In p (firsts_acc acc l) <-> In p acc \/ In p l).
+Proof.
+  induction l as [|x r IH]; intros acc Hn; cbn.
+  - split; [exact Hn|]. intros p. tauto.
+  - destruct (mem x acc) eqn:E.
+    + destruct (IH acc Hn) as [I1 I2]. split; [exact I1|]. intros p. rewrite I2.
+      apply mem_true in E. split; [tauto|]. intros [H|[->|H]]; tauto.
+    + destruct (IH (acc ++ [x]) (NoDup_snoc acc x Hn (mem_false _ _ E))) as [I1 I2].
+      split; [exact I1|]. intros p. rewrite I2, in_app_iff. cbn. tauto.
+Qed.
+
+(* ================================================================== 3. stage 3 on slices and on rank groups *)
+Fixpoint pid_feed (skip : bool) (prev : option counter) (cs : list counter) : option counter * list ev :=
+  match cs with
+  | [] => (prev, [])
+  | c :: r => let '(n, o) := pid_step skip prev c in let '(n2, o2) := pid_feed skip n r in (n2, o ++ o2)
+  end.
+
+Lemma power_feed_app skip a : forall b st,
+  power_feed skip st (a ++ b) =
+  let '(s1, o1) := power_feed skip st a in let '(s2, o2) := power_feed skip s1 b in (s2, o1 ++ o2).
+Proof.
+  induction a as [|e r IH]; intros b st; cbn [app power_feed].
+  - destruct (power_feed skip st b). reflexivity.
+  - destruct (power_step skip st e) as [n o]. rewrite IH.
+    destruct (power_feed skip n r) as [s1 o1]. destruct (power_feed skip s1 b) as [s2 o2].
+    rewrite app_assoc. reflexivity.
+Qed.
+Lemma power_feed_slices skip ss st : power_feed skip st (map ESlice ss) = (st, map ESlice ss).
+Proof.
+  induction ss as [|s r IH]; cbn [map power_feed power_step]; [reflexivity|]. rewrite IH. reflexivity.
+Qed.
+
+(* a group of counters of one rank only reads and writes that rank's previous sample *)
+Lemma power_feed_group skip p cs : forall st, Forall (fun c => c_pid c = p) cs ->
+  snd (power_feed skip st (map ECnt cs)) = snd (pid_feed skip (st p) cs) /\
+  (forall k, k <> p -> fst (power_feed skip st (map ECnt cs)) k = st k).
+Proof.
+  induction cs as [|c r IH]; intros st H; cbn [map power_feed pid_feed].
+  - split; reflexivity.
+  - inversion H as [|? ? Hc Hr]; subst. cbn [power_step].
+    destruct (pid_step skip (st (c_pid c)) c) as [n o].
+    set (st1 := fun k => if k =? c_pid c then n else st k).
+    destruct (IH st1 Hr) as [I1 I2].
+    destruct (power_feed skip st1 (map ECnt r)) as [s2 o2]. cbn [fst snd] in *.
+    assert (E1 : st1 (c_pid c) = n) by (unfold st1; rewrite Z.eqb_refl; reflexivity).
+    rewrite E1 in I1. destruct (pid_feed skip n r) as [n2 o3]. cbn [snd] in *. split.
+    + rewrite I1. reflexivity.
+    + intros k Hk. rewrite (I2 k Hk). unfold st1. apply Z.eqb_neq in Hk. rewrite Hk. reflexivity.
+Qed.
+
+Lemma power_feed_groups skip (G : Z -> list counter) order : forall st,
+  NoDup order ->
+  (forall p, In p order -> st p = None) ->
+  (forall p, Forall (fun c => c_pid c = p) (G p)) ->
+  snd (power_feed skip st (flat_map (fun p => map ECnt (G p)) order)) =
+  flat_map (fun p => snd (pid_feed skip None (G p))) order.
+Proof.
+  induction order as [|p r IH]; intros st Hn Hst HG; cbn [flat_map]; [reflexivity|].
+  rewrite power_feed_app. inversion Hn as [|? ? Hnotin Hn']; subst.
+  destruct (power_feed_group skip p (G p) st (HG p)) as [I1 I2].
+  destruct (power_feed skip st (map ECnt (G p))) as [s1 o1]. cbn [fst snd] in *.
+  assert (Hs1 : forall q, In q r -> s1 q = None).
+  { intros q Hq. rewrite I2; [apply Hst; right; exact Hq|]. intros ->. contradiction. }
+  specialize (IH s1 Hn' Hs1 HG).
+  destruct (power_feed skip s1 (flat_map (fun p0 => map ECnt (G p0)) r)) as [s2 o2]. cbn [snd] in *.
+  rewrite I1, IH, (Hst p (or_introl eq_refl)). reflexivity.
+Qed.
+
+(* the counters of rank p produced by stage 1 *)
+Definition psl (p : Z) (ss : list slice) : list slice := filter (fun s => sampled s && (s_pid s =? p)) ss.
+Lemma queue_of_cnts p ss : forall seen,
+  queue_of p (cnts seen ss) =
+  (if seen p then [] else match psl p ss with [] => [] | s1 :: _ => [zero_counter s1] end)
+  ++ map sample_counter (psl p ss).
+Proof.
+  unfold queue_of, psl.
+  induction ss as [|s r IH]; intros seen; cbn [cnts filter map].
+  - destruct (seen p); reflexivity.
+  - destruct (sampled s) eqn:Es; cbn [andb]; [|apply IH].
+    destruct (s_pid s =? p) eqn:Ep.
+    + apply Z.eqb_eq in Ep. destruct (seen (s_pid s)) eqn:Eseen.
+      * cbn [filter sample_counter c_pid]. rewrite Ep, Z.eqb_refl. rewrite IH. rewrite <- Ep, Eseen.
+        cbn [map app]. reflexivity.
+      * cbn [filter sample_counter zero_counter c_pid]. rewrite Ep, Z.eqb_refl. rewrite IH.
+        rewrite Z.eqb_refl. cbn [orb]. rewrite <- Ep, Eseen. cbn [map app]. reflexivity.
+    + destruct (seen (s_pid s)) eqn:Eseen.
+      * cbn [filter sample_counter c_pid]. rewrite Ep. apply IH.
+      * cbn [filter sample_counter zero_counter c_pid]. rewrite Ep. rewrite IH.
+        assert (E : (p =? s_pid s) = false) by (rewrite Z.eqb_sym; exact Ep). rewrite E. reflexivity.
+Qed.
+
+(* ================================================================== 4. one rank *)
+(* ---- zero readings are invisible *)
+Definition nz (c : counter) : bool := negb (c_q c =? 0).
+Definition norm (prev : option counter) : option counter :=
+  match prev with Some p => if c_q p =? 0 then None else prev | None => None end.
+
+Lemma step_zero skip prev c : (c_q c =? 0) = true ->
+  snd (pid_step skip prev c) = [] /\ norm (fst (pid_step skip prev c)) = norm prev.
+Proof.
+  intros Hc. destruct prev as [p|]; cbn [pid_step].
+  - unfold delta. destruct (c_q p =? 0) eqn:Ep.
+    + cbn [fst snd norm]. rewrite Hc, Ep. auto.
+    + rewrite Hc. cbn [fst snd]. auto.
+  - cbn [fst snd norm]. rewrite Hc. auto.
+Qed.
+Lemma step_nonzero skip prev prev' c : norm prev = norm prev' -> (c_q c =? 0) = false ->
+  pid_step skip prev c = pid_step skip prev' c.
+Proof.
+  intros Hn Hc. destruct prev as [p|], prev' as [p'|]; cbn [norm] in Hn.
+  - destruct (c_q p =? 0) eqn:Ep, (c_q p' =? 0) eqn:Ep'; try discriminate.
+    + cbn [pid_step]. unfold delta. rewrite Ep, Ep'. reflexivity.
+    + inversion Hn; subst. reflexivity.
+  - destruct (c_q p =? 0) eqn:Ep; try discriminate. cbn [pid_step]. unfold delta. rewrite Ep. reflexivity.
+  - destruct (c_q p' =? 0) eqn:Ep'; try discriminate. cbn [pid_step]. unfold delta. rewrite Ep'. reflexivity.
+  - reflexivity.
+Qed.
+Lemma pid_feed_nz skip l : forall prev prev', norm prev = norm prev' ->
+  snd (pid_feed skip prev l) = snd (pid_feed skip prev' (filter nz l)).
+Proof.
+  induction l as [|c r IH]; intros prev prev' Hn; cbn [filter pid_feed]; [reflexivity|].
+  unfold nz at 1. destruct (c_q c =? 0) eqn:Ec; cbn [negb].
+  - destruct (step_zero skip prev c Ec) as [S1 S2].
+    destruct (pid_step skip prev c) as [n o]. cbn [fst snd] in *. subst o.
+    specialize (IH n prev' (eq_trans S2 Hn)).
+    destruct (pid_feed skip n r) as [n2 o2]. cbn [snd] in *. exact IH.
+  - cbn [pid_feed]. rewrite (step_nonzero skip prev prev' c Hn Ec).
+    destruct (pid_step skip prev' c) as [n o]. specialize (IH n n eq_refl).
+    destruct (pid_feed skip n r) as [n2 o2]. destruct (pid_feed skip n (filter nz r)) as [n3 o3].
+    cbn [snd] in *. rewrite IH. reflexivity.
+Qed.
+
+(* ---- arithmetic of one pair *)
+Lemma W32_val : W32 = 4294967296.
+Proof. reflexivity. Qed.
+Lemma dcharge_mod pa pb : 0 <= pa < W32 -> 0 <= pb < W32 -> dcharge pa pb = (pb - pa) mod W32.
+Proof.
+  rewrite W32_val. intros Ha Hb. unfold dcharge. rewrite W32_val. destruct (pa <=? pb) eqn:E.
+  - apply Z.leb_le in E. rewrite Z.mod_small; lia.
+  - apply Z.leb_gt in E. apply Z.mod_unique with (q := -1); lia.
+Qed.
+Lemma mod_nonneg a : 0 <= a mod W32.
+Proof. apply Z.mod_pos_bound. rewrite W32_val. lia. Qed.
+
+Lemma raw_nonneg dq ta tb : 0 <= dq -> (ta < tb)%Q -> (0 <= VOLT * inject_Z dq * LSB / (tb - ta))%Q.
+Proof.
+  intros Hq Ht. unfold Qdiv. apply Qmult_le_0_compat.
+  - apply Qmult_le_0_compat; [apply Qmult_le_0_compat|]; [discriminate| |discriminate].
+    change 0%Q with (inject_Z 0). rewrite <- Zle_Qle. exact Hq.
+  - apply Qinv_le_0_compat. apply Qlt_le_weak. unfold Qminus. apply -> Qlt_minus_iff. exact Ht.
+Qed.
+Lemma clamp_bounds w : (0 <= w)%Q -> (0 <= clamp w)%Q /\ (clamp w <= CAP)%Q.
+Proof.
+  intros H. unfold clamp, Qlt_b. destruct (Qle_bool w CAP) eqn:E; cbn [negb].
+  - apply Qle_bool_iff in E. auto.
+  - split; discriminate.
+Qed.
+Lemma Qlt_of_bools a b : Qle_bool a b = true -> Qeq_bool a b = false -> (a < b)%Q.
+Proof.
+  intros L N. apply Qle_bool_iff in L. apply Qle_lteq in L. destruct L as [L|L]; [exact L|].
+  apply Qeq_bool_iff in L. congruence.
+Qed.
+
+(* ---- the state machine on a time-sorted list of proper samples *)
+Definition proj (c : counter) : Q * Z := (c_key c, c_q c).
+Definition good (p : Z) (c : counter) : Prop :=
+  c_pid c = p /\ c_ts c = c_key c /\ is_prep (c_cat c) = false /\ 0 < c_q c < W32.
+Definition Fpow (p : Z) (a b : Q * Z) : ev := EPow p (fst a) (watts_spec a b).
+
+Lemma SSorted_skip {A} (R : A -> A -> Prop) a b r :
+  StronglySorted R (a :: b :: r) -> StronglySorted R (a :: r).
+Proof.
+  intros H. inversion H as [|? ? H1 H2]; subst. inversion H1; subst. inversion H2; subst.
+  constructor; assumption.
+Qed.
+
+Lemma pid_feed_sorted p l : forall p0,
+  good p p0 -> Forall (good p) l -> StronglySorted (le_of _ key_leb) (p0 :: l) ->
+  snd (pid_feed false (Some p0) l) = pairs (Fpow p) (proj p0 :: dedup_from (c_key p0) (map proj l)).
+Proof.
+  induction l as [|c r IH]; intros p0 Hg Hl Hs; [reflexivity|].
+  inversion Hl as [|? ? Hc Hr]; subst.
+  destruct Hg as (G1 & G2 & G3 & G4). destruct Hc as (C1 & C2 & C3 & C4).
+  cbn [pid_feed pid_step map dedup_from]. unfold delta.
+  assert (E0 : (c_q p0 =? 0) = false) by (apply Z.eqb_neq; lia).
+  assert (Ec : (c_q c =? 0) = false) by (apply Z.eqb_neq; lia).
+  rewrite E0, Ec. cbn [proj fst]. destruct (Qeq_bool (c_key p0) (c_key c)) eqn:Eq.
+  - rewrite G3. specialize (IH p0 (conj G1 (conj G2 (conj G3 G4))) Hr (SSorted_skip _ _ _ _ Hs)).
+    destruct (pid_feed false (Some p0) r) as [n2 o2]. cbn [snd app] in *. exact IH.
+  - cbn [andb].
+    assert (Hlt : (c_key p0 < c_key c)%Q).
+    { apply Qlt_of_bools; [|exact Eq]. inversion Hs as [|? ? _ Hall]; subst. inversion Hall; subst. assumption. }
+    assert (Hraw : (0 <= raw_watts p0 c)%Q).
+    { unfold raw_watts. apply raw_nonneg; [|exact Hlt]. rewrite dcharge_mod by lia. apply mod_nonneg. }
+    destruct (clamp_bounds _ Hraw) as [B1 _].
+    assert (Eneg : Qlt_b (clamp (raw_watts p0 c)) 0 = false).
+    { unfold Qlt_b. apply Qle_bool_iff in B1. rewrite B1. reflexivity. }
+    rewrite Eneg.
+    assert (Hs' : StronglySorted (le_of _ key_leb) (c :: r)) by (inversion Hs; assumption).
+    specialize (IH c (conj C1 (conj C2 (conj C3 C4))) Hr Hs').
+    destruct (pid_feed false (Some c) r) as [n2 o2]. cbn [snd] in *. rewrite IH.
+    cbn [pairs app]. f_equal. unfold Fpow, watts_spec, raw_watts. cbn [proj fst snd].
+    rewrite G1, G2, dcharge_mod by lia. reflexivity.
+Qed.
+
+Lemma pid_feed_sorted_none p l :
+  Forall (good p) l -> StronglySorted (le_of _ key_leb) l ->
+  snd (pid_feed false None l) = pairs (Fpow p) (dedup (map proj l)).
+Proof.
+  intros Hl Hs. destruct l as [|c r]; [reflexivity|].
+  inversion Hl; subst. cbn [pid_feed pid_step map dedup].
+  pose proof (pid_feed_sorted p r c) as H. 
+  destruct (pid_feed false (Some c) r) as [n2 o2]. cbn [snd app] in *. apply H; assumption.
+Qed.
+
+(* ================================================================== 5. assembly *)
+Lemma flat_map_filter_map {A B} (g : A -> bool) (h : A -> B) l :
+  flat_map (fun s => if g s then [h s] else []) l = map h (filter g l).
+Proof. induction l as [|x r IH]; cbn; [reflexivity|]. destruct (g x); cbn; rewrite IH; reflexivity. Qed.
+Lemma filter_map_comm {A B} (f : A -> B) (g : B -> bool) l :
+  filter g (map f l) = map f (filter (fun x => g (f x)) l).
+Proof. induction l as [|x r IH]; cbn; [reflexivity|]. destruct (g (f x)); cbn; rewrite IH; reflexivity. Qed.
+
+Definition nzs (x : Q * Z) : bool := negb (snd x =? 0).
+
+Lemma rank_output p ss : charges_32bit ss ->
+  snd (pid_feed false None (isort key_leb (queue_of p (cnts (fun _ => false) ss)))) = power_spec p ss.
+Proof.
+  intros H32. rewrite queue_of_cnts.
+  set (Z0 := match psl p ss with [] => [] | s1 :: _ => [zero_counter s1] end).
+  set (cs := map sample_counter (psl p ss)).
+  rewrite (pid_feed_nz false _ None None eq_refl).
+  rewrite (filter_isort _ key_leb key_leb_total key_leb_trans).
+  rewrite filter_app.
+  assert (EZ : filter nz Z0 = []) by (unfold Z0; destruct (psl p ss); reflexivity).
+  rewrite EZ. cbn [app].
+  rewrite (pid_feed_sorted_none p).
+  - unfold power_spec, valid_samples. f_equal. f_equal.
+    rewrite (isort_map proj key_leb time_leb) by reflexivity.
+    change (fun x : Q * Z => negb (snd x =? 0)) with nzs.
+    rewrite (filter_isort _ time_leb time_leb_total time_leb_trans).
+    f_equal. unfold cs, samples_of.
+    rewrite (flat_map_filter_map (fun s => sampled s && (s_pid s =? p)) (fun s => (s_ts4 s, s_charge s))).
+    fold (psl p ss). rewrite (filter_map_comm (fun s => (s_ts4 s, s_charge s)) nzs).
+    rewrite (filter_map_comm sample_counter nz). rewrite map_map. reflexivity.
+  - apply isort_Forall. rewrite Forall_forall. intros c Hc. apply filter_In in Hc. destruct Hc as [Hc Hnz].
+    unfold cs in Hc. apply in_map_iff in Hc. destruct Hc as (s & <- & Hs).
+    unfold psl in Hs. apply filter_In in Hs. destruct Hs as [Hin Hs]. apply andb_prop in Hs. destruct Hs as [Hsm Hp].
+    unfold charges_32bit in H32. rewrite Forall_forall in H32. specialize (H32 s Hin).
+    unfold nz in Hnz. cbn [sample_counter c_q] in Hnz. apply negb_true_iff in Hnz. apply Z.eqb_neq in Hnz.
+    unfold good. cbn [sample_counter c_pid c_ts c_key c_cat c_q]. apply Z.eqb_eq in Hp.
+    repeat split; try assumption; try lia.
+    unfold sampled in Hsm. apply andb_prop in Hsm. destruct Hsm as [Hsm _]. apply andb_prop in Hsm.
+    destruct Hsm as [Hsm _]. apply andb_prop in Hsm. destruct Hsm as [_ Hsm]. apply negb_true_iff in Hsm. exact Hsm.
+  - apply isort_SSorted; [apply key_leb_total|apply key_leb_trans].
+Qed.
+
+Lemma firsts_pids_order ss : firsts_acc [] (map c_pid (cnts (fun _ => false) ss)) = pids_order ss.
+Proof. rewrite firsts_cnts. reflexivity. Qed.
+
+Lemma power_run_spec ss : charges_32bit ss ->
+  power_run false (map ESlice ss) = map ESlice ss ++ flat_map (fun p => power_spec p ss) (pids_order ss).
+Proof.
+  intros H32. rewrite power_run_compose, sort_extract_stream. unfold power_stream.
+  rewrite power_feed_app, power_feed_slices.
+  set (G := fun p => isort key_leb (queue_of p (cnts (fun _ => false) ss))).
+  pose proof (power_feed_groups false G (firsts_acc [] (map c_pid (cnts (fun _ => false) ss)))
+                (fun _ => None)) as HG.
+  change (fun p => map ECnt (isort key_leb (queue_of p (cnts (fun _ => false) ss))))
+    with (fun p => map ECnt (G p)).
+  destruct (power_feed false (fun _ => None)
+              (flat_map (fun p => map ECnt (G p)) (firsts_acc [] (map c_pid (cnts (fun _ => false) ss)))))
+    as [s2 o2]. cbn [snd] in *. f_equal. rewrite HG.
+  - rewrite firsts_pids_order. apply flat_map_ext. intros p. unfold G. apply rank_output. exact H32.
+  - apply (firsts_acc_spec _ []). constructor.
+  - reflexivity.
+  - intros p. unfold G. apply isort_Forall. unfold queue_of. rewrite Forall_forall. intros c Hc.
+    apply filter_In in Hc. destruct Hc as [_ Hc]. apply Z.eqb_eq in Hc. exact Hc.
+Qed.
+
+(* ================================================================== 6. bounds, time order, energy *)
+Lemma SSorted_filter {A} (R : A -> A -> Prop) f l : StronglySorted R l -> StronglySorted R (filter f l).
+Proof.
+  induction 1 as [|a l Hl IH Ha]; cbn; [constructor|]. destruct (f a); [|exact IH].
+  constructor; [exact IH|]. rewrite Forall_forall in *. intros x Hx. apply filter_In in Hx. apply Ha. apply Hx.
+Qed.
+
+Lemma dedup_from_strict l : forall t0,
+  StronglySorted (le_of _ time_leb) l -> Forall (fun x => (t0 <= fst x)%Q) l ->
+  strict_times (dedup_from t0 l) /\ Forall (fun x => (t0 < fst x)%Q) (dedup_from t0 l).
+Proof.
+  induction l as [|x r IH]; intros t0 Hs Hle; cbn [dedup_from]; [split; constructor|].
+  inversion Hs as [|? ? Hr Hall]; subst. inversion Hle as [|? ? Hx Hler]; subst.
+  destruct (Qeq_bool t0 (fst x)) eqn:E.
+  - apply IH; assumption.
+  - assert (Hlt : (t0 < fst x)%Q).
+    { apply Qle_lteq in Hx. destruct Hx as [Hx|Hx]; [exact Hx|]. apply Qeq_bool_iff in Hx. congruence. }
+    assert (Hall' : Forall (fun y => (fst x <= fst y)%Q) r).
+    { rewrite Forall_forall in *. intros y Hy. apply Qle_bool_iff. apply (Hall y Hy). }
+    destruct (IH (fst x) Hr Hall') as [I1 I2]. split.
+    + constructor; assumption.
+    + constructor; [exact Hlt|]. rewrite Forall_forall in *. intros y Hy.
+      apply Qlt_trans with (fst x); [exact Hlt|apply I2; exact Hy].
+Qed.
+Lemma dedup_strict l : StronglySorted (le_of _ time_leb) l -> strict_times (dedup l).
+Proof.
+  intros Hs. destruct l as [|x r]; [constructor|]. cbn [dedup].
+  inversion Hs as [|? ? Hr Hall]; subst.
+  assert (Hall' : Forall (fun y => (fst x <= fst y)%Q) r).
+  { rewrite Forall_forall in *. intros y Hy. apply Qle_bool_iff. apply (Hall y Hy). }
+  destruct (dedup_from_strict r (fst x) Hr Hall') as [I1 I2]. constructor; assumption.
+Qed.
+Lemma valid_samples_strict p ss : strict_times (valid_samples p ss).
+Proof.
+  unfold valid_samples. apply dedup_strict. apply SSorted_filter.
+  apply isort_SSorted; [apply time_leb_total|apply time_leb_trans].
+Qed.
+
+Lemma pairs_cons2 {A B} (f : A -> A -> B) a b r : pairs f (a :: b :: r) = f a b :: pairs f (b :: r).
+Proof. reflexivity. Qed.
+
+Lemma pairs_in {A B} (f : A -> A -> B) l e : In e (pairs f l) -> exists a b, In a l /\ In b l /\ e = f a b.
+Proof.
+  induction l as [|a [|b r] IH]; [intros []|intros []|]. rewrite pairs_cons2.
+  intros [<-|H].
+  - exists a, b. cbn. auto.
+  - destruct (IH H) as (a' & b' & Ha & Hb & ->). exists a', b'. split; [right; exact Ha|]. split; [right; exact Hb|reflexivity].
+Qed.
+
+Lemma pairs_times_sorted p l : strict_times l -> StronglySorted Qlt (map pow_ts (pairs (Fpow p) l)).
+Proof.
+  induction l as [|a [|b r] IH]; intros Hs; [constructor|constructor|]. rewrite pairs_cons2. cbn [map]. constructor.
+  - apply IH. inversion Hs; assumption.
+  - inversion Hs as [|? ? Hr Hall]; subst. rewrite Forall_forall. intros t Ht. apply in_map_iff in Ht.
+    destruct Ht as (e & <- & He). apply pairs_in in He. destruct He as (a' & b' & Ha' & _ & ->).
+    cbn [Fpow pow_ts fst]. rewrite Forall_forall in Hall. apply (Hall a' Ha').
+Qed.
+
+Lemma watts_spec_bounds a b : (fst a < fst b)%Q -> (0 <= watts_spec a b)%Q /\ (watts_spec a b <= CAP)%Q.
+Proof. intros H. unfold watts_spec. apply clamp_bounds. apply raw_nonneg; [apply mod_nonneg|exact H]. Qed.
+
+Lemma pairs_ok p l : strict_times l -> Forall ok_ev (pairs (Fpow p) l).
+Proof.
+  induction l as [|a [|b r] IH]; intros Hs; [constructor|constructor|]. rewrite pairs_cons2. constructor.
+  - cbn [Fpow ok_ev]. apply watts_spec_bounds. inversion Hs as [|? ? _ Hall]; subst. inversion Hall; assumption.
+  - apply IH. inversion Hs; assumption.
+Qed.
+
+Lemma power_run_ok ss : charges_32bit ss -> Forall ok_ev (power_run false (map ESlice ss)).
+Proof.
+  intros H32. rewrite power_run_spec by exact H32. apply Forall_app. split.
+  - rewrite Forall_forall. intros e He. apply in_map_iff in He. destruct He as (s & <- & _). exact I.
+  - rewrite Forall_forall. intros e He. apply in_flat_map in He. destruct He as (p & _ & He).
+    pose proof (pairs_ok p (valid_samples p ss) (valid_samples_strict p ss)) as H.
+    rewrite Forall_forall in H. apply H. exact He.
+Qed.
+Lemma ok_no_err o : Forall ok_ev o -> existsb is_err o = false.
+Proof.
+  induction 1 as [|e r He Hr IH]; cbn; [reflexivity|]. rewrite IH. destruct e; cbn in *; try reflexivity; contradiction.
+Qed.
+
+(* ---- energy *)
+Lemma pair_energy a b : (fst a < fst b)%Q -> (unclamped a b <= CAP)%Q ->
+  (watts_spec a b * (fst b - fst a) == VOLT * LSB * inject_Z ((snd b - snd a) mod W32))%Q.
+Proof.
+  intros Hlt Hc. unfold watts_spec. fold (unclamped a b). unfold clamp, Qlt_b.
+  apply Qle_bool_iff in Hc. rewrite Hc. cbn [negb]. unfold unclamped, Qdiv.
+  assert (Hne : ~ (fst b - fst a == 0)%Q).
+  { intro E. unfold Qminus in E. apply Qlt_minus_iff in Hlt. rewrite E in Hlt. discriminate. }
+  rewrite <- Qmult_assoc. rewrite (Qmult_comm (/ (fst b - fst a))). rewrite Qmult_inv_r by exact Hne. ring.
+Qed.
+
+Lemma energy_eq vs : strict_times vs -> no_clamp vs ->
+  (energy vs == VOLT * LSB * inject_Z (dcharge_sum vs))%Q.
+Proof.
+  unfold energy, dcharge_sum, no_clamp.
+  induction vs as [|a [|b r] IH]; intros Hs Hn; [cbn; ring|cbn; ring|]. rewrite !pairs_cons2 in *.
+  cbn [qsum zsum fold_right].
+  inversion Hs as [|? ? Hr Hall]; subst. inversion Hn as [|? ? Hc Hn']; subst.
+  rewrite inject_Z_plus. rewrite pair_energy; [|inversion Hall; assumption|exact Hc].
+  unfold qsum, zsum in IH. rewrite (IH Hr Hn'). ring.
+Qed.
+
+Lemma wrap_step ua ub : 0 <= ub - ua < W32 -> (ub mod W32 - ua mod W32) mod W32 = ub - ua.
+Proof. intros H. rewrite <- Zminus_mod. apply Z.mod_small. exact H. Qed.
+
+Lemma dcharge_sum_unwrapped vs : forall us,
+  map snd vs = map (fun u => u mod W32) us -> mono_steps us ->
+  dcharge_sum vs = last us 0 - hd 0 us.
+Proof.
+  unfold dcharge_sum, mono_steps.
+  induction vs as [|a [|b r] IH]; intros us Hm Hst.
+  - destruct us; [reflexivity|discriminate].
+  - destruct us as [|ua [|ub ur]]; try discriminate. cbn. lia.
+  - destruct us as [|ua [|ub ur]]; try discriminate.
+    cbn [map] in Hm. injection Hm as Ha Hb Hr.
+    rewrite pairs_cons2 in Hst. inversion Hst as [|? ? Hd Hst']; subst.
+    rewrite pairs_cons2. cbn [zsum fold_right]. unfold zsum in IH.
+    rewrite (IH (ub :: ur)); [|cbn [map]; rewrite Hb, Hr; reflexivity|exact Hst'].
+    rewrite Ha, Hb, wrap_step by exact Hd. cbn [hd]. 
+    change (last (ua :: ub :: ur) 0) with (last (ub :: ur) 0). lia.
+Qed.
+
+Lemma equal_readings_zero a b : snd a = snd b -> (watts_spec a b == 0)%Q.
+Proof.
+  intros E. unfold watts_spec. rewrite E, Z.sub_diag. cbn [Z.modulo Z.div_eucl].
+  unfold clamp, Qlt_b.
+  assert (H : (VOLT * inject_Z 0 * LSB / (fst b - fst a) == 0)%Q).
+  { unfold Qdiv. change (inject_Z 0) with 0%Q. ring. }
+  destruct (Qle_bool (VOLT * inject_Z 0 * LSB / (fst b - fst a)) CAP); cbn [negb]; [exact H|reflexivity].
+Qed.
+
+(* C10_values: the i-th emitted event of a rank *)
+Lemma pairs_nth {A B} (f : A -> A -> B) l : forall i a b,
+  nth_error l i = Some a -> nth_error l (S i) = Some b -> nth_error (pairs f l) i = Some (f a b).
+Proof.
+  induction l as [|x [|y r] IH]; intros i a b Ha Hb.
+  - destruct i; discriminate.
+  - destruct i as [|[|i]]; discriminate.
+  - destruct i as [|i].
+    + cbn in Ha, Hb. injection Ha as <-. injection Hb as <-. reflexivity.
+    + rewrite pairs_cons2. cbn [nth_error]. apply IH; [exact Ha|exact Hb].
+Qed.
+Lemma pairs_length {A B} (f : A -> A -> B) l : List.length (pairs f l) = pred (List.length l).
+Proof.
+  induction l as [|x [|y r] IH]; try reflexivity. rewrite pairs_cons2. cbn [List.length] in *. rewrite IH. reflexivity.
+Qed.
